@@ -10,7 +10,7 @@ READY = True
 THEOREMS = [
     "C12.marks", "C12.resize_exact", "C12.fit_exact", "C12.blanks_are_blanks", "C12.width_bounds", "C12.rectangular", "C12.separators",
     "C12.cell_content", "C12.cell_default", "C12.full_when_fits", "C12.cell_len_exact", "C12.title_content", "C12.limits",
-    "C12.print_twice", "C12.interleaved", "C12.interleaved_run", "C12.fmt_obj_same", "C12.ctor_options", "C12.fmt_obj_ignores_printing", "C12.field_positions",
+    "C12.print_twice", "C12.interleaved", "C12.interleaved_run", "C12.snapshot_kept", "C12.fmt_obj_same", "C12.ctor_options", "C12.fmt_obj_ignores_printing", "C12.field_positions",
     "C12.setter_bounds", "C12.ctor_bounds", "C12.widths_faithful",
 ]
 
@@ -599,6 +599,11 @@ def run_interleaved(toks):
         elif tok[0] == "A":     # the caller appends a record to the list the table was given
             ti, vals = tok[1:].split(":")
             tables[int(ti)].records.append(tuple(dec_val(v) for v in vals.split("+")) if vals else ())
+        elif tok[0] == "S":     # ... replaces one record (the list keeps its length)
+            ti, i, vals = tok[1:].split(":")
+            tables[int(ti)].records[int(i)] = tuple(dec_val(v) for v in vals.split("+")) if vals else ()
+        elif tok[0] == "V":     # ... reverses the list in place
+            tables[int(tok[1:])].records.reverse()
         elif int(tok) < len(its):
             advance(int(tok))
     for i in range(len(its)):
@@ -857,6 +862,13 @@ def descs_at_start(descs, iters, sched):
         elif tok[0] == "A":
             ti, vals = tok[1:].split(":")
             cur[int(ti)]["records"].append([dec_val(v) for v in vals.split("+")] if vals else [])
+        elif tok[0] == "S":
+            ti, i, vals = tok[1:].split(":")
+            cur[int(ti)]["records"][int(i)] = [dec_val(v) for v in vals.split("+")] if vals else []
+            cur[int(ti)]["same"] = None
+        elif tok[0] == "V":
+            cur[int(tok[1:])]["records"].reverse()
+            cur[int(tok[1:])]["same"] = None
         elif int(tok) < len(iters) and int(tok) not in snap:
             snap[int(tok)] = copy.deepcopy(cur[iters[int(tok)]])
     for i in range(len(iters)):
@@ -947,7 +959,9 @@ def oracle(case, replies):
 
 # ------------------------------------------------------------------ generators
 _NAMES = ["id", "name", "level", "a", "b", "x y", "st.at_us", "Ж", "c_name", "f0", "f1", "long_field_name",
-          "K", "q-r", "n7", "**", "col_1", "e=mc2", "it's", "[k]", "a  b", "№"]
+          "K", "q-r", "n7", "**", "col_1", "e=mc2", "it's", "[k]", "a  b", "№",
+          # characters that are format marks when they stand elsewhere: an inner '!', parentheses, '-', a lone '<'
+          "qty!=0", "done!?", "f(x)", "a(b)-c", "x!y", "(1)", "p<q"]
 _ALPHA = "ab|+- .xyzWQ"
 _EXTRA = "é中Ж\t:;,!/()<*'\"\\_0"
 
@@ -1056,6 +1070,14 @@ def col_str(rng, c, plain=False):
 
 
 def gen_col(rng, f):
+    c = _gen_col(rng, f)
+    if f.get("custom") is not None and rng.random() < 0.35:
+        # a field type with its own bounds x explicit bounds: the global defaults, or the type's own
+        c["w"] = rng.choice([[1, 999], [1, 999], [f["custom"]["min"], f["custom"]["max"]]])
+    return c
+
+
+def _gen_col(rng, f):
     mod = None
     if f.get("enum") is not None and rng.random() < 0.75:
         mod = rng.choice(["full", "val", "name"])
@@ -1297,6 +1319,40 @@ def gen_tset_case(rng):
     return mk_tset_case(rng, desc, 1 if rng.random() < 0.5 else 0, cols, lim)
 
 
+def gen_wide_case(rng):
+    """widths, values, headers and footers beyond the small-int cache (256) and beyond the default maximum (999):
+    exact fits, one more, one less"""
+    W = rng.choice([257, 258, 300, 512, 999, 1000, 1001, 1200])
+    kind = rng.choice(["fixed", "ranged", "default", "enum"])
+    fields = [{"name": "a", "enum": None, "title": None}, {"name": "b", "enum": None, "title": None}]
+    cols = [{"f": "a", "mod": None, "brk": False, "w": None}, {"f": "b", "mod": None, "brk": False, "w": [2, 2]}]
+    def text(n):
+        return "".join(rng.choice("abcxyz|+-. ") for _ in range(max(0, n - 1))) + "q" if n > 0 else ""
+    lens = [W, W, W - 1, W + 1, rng.randint(1, 10)]
+    if kind == "fixed":
+        cols[0]["w"] = [W, W]
+    elif kind == "ranged":
+        cols[0]["w"] = [rng.choice([0, 3, 256]), W]
+    elif kind == "enum":
+        fields[0]["enum"] = {"keys": [[1, text(W - 2)], [2, "two"]], "missing": None}
+        cols[0]["mod"] = rng.choice(["full", "name"])
+    records = [[(text(n) if kind != "enum" else rng.choice([1, 2, 7])), i] for i, n in enumerate(rng.sample(lens, rng.randint(1, 4)))]
+    desc = {"valid": True, "fields": fields, "records": records, "cols": cols, "fmt_limits": None, "limits": None,
+            "skip": None, "same": None, "header": None, "footer": None}
+    # header exactly as wide as the space between the outer separators, footer exactly as wide as the table
+    # (computed for the width the first column will get, where that is certain)
+    w0 = W if kind in ("fixed",) else None
+    if w0 is not None:
+        tw = w0 + 2 + 3
+        desc["header"] = rng.choice([text(tw - 2), text(tw - 1), text(tw - 3), None])
+        desc["footer"] = rng.choice([text(tw), text(tw + 1), text(tw - 1), None])
+    else:
+        desc["header"] = rng.choice([None, text(W), text(300)])
+        desc["footer"] = rng.choice([None, text(W + 5), text(260)])
+    desc["fmt"] = fmt_str(rng, cols, None, plain=True)
+    return _case(desc, "wide")
+
+
 def mk_ilv_case(descs, iters, sched, kind="interleaved"):
     line = "ilv " + " @ ".join(encode(d) for d in descs) + " @ " + " ".join(map(str, iters)) + " @ " + \
         " ".join(map(str, sched))
@@ -1334,16 +1390,20 @@ def gen_ilv_case(rng):
         for _ in range(rng.randint(1, 3)):
             ti = rng.randrange(len(descs))
             if rng.random() < 0.5:
-                # new limits, while no print of that table is being consumed (set_limits forgets the widths: a lazy
-                # print still in progress would meet columns without width - see the report): before its first
-                # iterator is advanced
+                # new limits on the live format object at any point, also while a print of that table is being consumed
                 ev = "L%d:%s:%s" % (ti, rng.choice(["n", 0, 1, 2, 5]), rng.choice(["n", 0, 1, 3]))
-                firsts = [k for k, x in enumerate(sched) if not isinstance(x, str) and x < len(iters) and iters[x] == ti]
-                sched.insert(rng.randint(0, firsts[0] if firsts else len(sched)), ev)
+                sched.insert(rng.randint(0, min(len(sched), 12)), ev)
             else:
                 rec = gen_records_like(rng, descs[ti], 1)[0]
                 rec = [v if not isinstance(v, str) else v + "wider" * rng.randint(0, 3) for v in rec]
-                ev = "A%d:%s" % (ti, "+".join(enc_val(v) for v in rec))
+                k = rng.random()
+                n0 = len(descs[ti]["records"])     # (appends only make the list longer: the index stays valid)
+                if k < 0.4 or n0 == 0:
+                    ev = "A%d:%s" % (ti, "+".join(enc_val(v) for v in rec))
+                elif k < 0.8:       # the list is edited in place, its length stays: one record replaced ...
+                    ev = "S%d:%d:%s" % (ti, rng.randrange(n0), "+".join(enc_val(v) for v in rec))
+                else:               # ... or the order reversed
+                    ev = "V%d" % ti
                 sched.insert(rng.randint(0, min(len(sched), 12)), ev)
     return mk_ilv_case(descs, iters, sched)
 
@@ -1393,6 +1453,15 @@ def corpus():
             "fmt_limits": None, "limits": None, "header": None, "footer": None, "skip": None,
             "fmt": "a/val,a/full,a/name,b"}
     yield _case(desc, "corpus-enum-equal-values")
+    # witness of the regression of 1d22ea8 (repaired by df4a139): set_limits while the lines of the table are being
+    # consumed made the rest of the print fail with TypeError
+    d = {"valid": True, "fields": [{"name": "a", "enum": None, "title": None}, {"name": "b", "enum": None, "title": None}],
+         "records": [[i, "x" * (8 if i == 3 else 1)] for i in range(6)],
+         "cols": [{"f": "a", "mod": None, "brk": False, "w": None}, {"f": "b", "mod": None, "brk": False, "w": None}],
+         "fmt_limits": [5, 5], "limits": None, "header": None, "footer": None, "skip": None, "same": None, "fmt": "a,b;5:5"}
+    c = mk_ilv_case([d], [0, 0], [0, 0, 0, "L0:1:0", 0, 1, 0, 1])
+    c["meta"] = {"kind": "corpus-set_limits-during-print"}
+    yield c
 
 
 def gen_cases(rng, tier):
@@ -1412,6 +1481,8 @@ def gen_cases(rng, tier):
         yield gen_tset_case(rng)
     for _ in range(400 if quick else 8000):
         yield gen_obj2_case(rng)
+    for _ in range(150 if quick else 3000):
+        yield gen_wide_case(rng)
     # helpers, directly
     for _ in range(600 if quick else 20000):
         chunks = [gen_text(rng, 6) for _ in range(rng.randint(0, 4))]
@@ -1653,6 +1724,8 @@ def tags(case, replies):
             yield "interleaved:limits-changed-meanwhile"
         if any(str(x)[0] == "A" for x in case["sched"]):
             yield "interleaved:record-appended-meanwhile"
+        if any(str(x)[0] in "SV" for x in case["sched"]):
+            yield "interleaved:list-edited-in-place-meanwhile"
         yield "interleaved:tables=%d" % len(set(case["iters"]))
         if len(set(case["iters"])) < len(case["iters"]):
             yield "interleaved:same-table-twice"
@@ -1706,9 +1779,10 @@ RULE = ("tables: 1-4 fields (one of them an enum in 40%), 0-12 records of mixed 
         "printed table (zero and min=max bounds) then print; field-less tables; malformed formats/fields/records; tables built with fmt_obj= (format "
         "of another fresh/printed table or PPTableFormat.make, mostly asymmetric limits, other records); 2-4 line "
         "iterators over 1-3 tables (also two over one table) advanced in a random or zip-like interleaving, in half "
-        "of the cases with records appended in between (and set_limits before the table's first iterator starts) and "
-        "zero-width columns, each "
-        "judged against its own table as it is when the iterator starts; two siblings from one format object, the "
+        "of the cases with set_limits on the live format / records appended, replaced or the list reversed in place "
+        "at any point in between (print, edit, print again included) and zero-width columns, each "
+        "judged against its own table as it is when the iterator starts; tables wider than 256 / 999 characters with "
+        "values, headers and footers that fit exactly, by one more and by one less; two siblings from one format object, the "
         "second with its own limits=/skip_columns=, the first and the donor printed again afterwards; fit_to_width/resize_chunks_list "
         "called directly (diagnostic lines). non-trivial = a table with at least one record or a rejected one; "
         "distinct by protocol line")
@@ -1736,7 +1810,9 @@ LEVEL_TEXT = ("Kernel-checked on the model; every theorem about a rendering is c
               "lines only directly before a record; for natural-number limits first, last >= 0: exactly first/last "
               "lines plus one skipped line whose number is the count of hidden records (>= 1) and adds up to the total "
               "(limits; negative limits are modelled and tied, not covered); printing has no memory (print_twice), "
-              "interleaved line iterators each yield their own table's lines (interleaved, interleaved_run); a table "
+              "interleaved line iterators each yield their own table's lines (interleaved, interleaved_run) and a started "
+              "iterator keeps the lines of its table as it was at that moment whatever set_limits / append / other "
+              "starts follow (snapshot_kept); a table "
               "built with fmt_obj= from another table's format and the same records prints the same, both limits "
               "included, limits=/skip_columns= act as given, and it is the same table whether or not the donor had "
               "been printed (fmt_obj_same, ctor_options, widths_faithful, fmt_obj_ignores_printing); a name at index i "
@@ -1749,8 +1825,7 @@ LEVEL_NOTE = ("Trusted: Lean kernel, translator (constants of ak/ppobj.py regene
               "harness/c12.py, sampled correspondence. Colours are not modelled (all chunks plain: no_color=True; "
               "C08-C10 cover colours). C12.limits assumes natural-number limits; negative limits are modelled (Python "
               "slicing) and tied but not covered. Tie only: enhanced formats (value paths) are not modelled. The generator laziness of gen_ch_lines is "
-              "modelled as 'all work at the first next()', which the interleaved tie validates; set_limits on a table "
-              "whose lines are still being consumed is not modelled (since 1d22ea8 the lazy print then meets columns "
-              "without width: TypeError - reported).")
+              "modelled as 'all work at the first next()', which the interleaved tie validates, set_limits and appended "
+              "records while a print is being consumed included.")
 TECHNIQUE = ("Lean 4 theorems over an executable model of the table printer built on the CHText model + constant "
              "translator + differential run (single tables, fmt_obj tables, interleaved iterators)")
